@@ -154,6 +154,13 @@ def t3_reexport() -> Iterator[Dict[str, Any]]:
     yield project([mod("pkg", pkg=True), mod("sub", 1, ops=flat(cls("S"))),
                    mod("facade", ops=[frm("pkg", "sub")], all=["sub"]),
                    mod("use", ops=flat(frm("pkg.sub", "S"), cls("T", "S")))], "T3", idiom="module-reexported-by-plain-module")
+    # ... the same for a sub-PACKAGE (with a module of its own) next to a sub-module, listed by a plain module of the package itself;
+    # and both re-exported by another PACKAGE (that one takes them in)
+    yield project([mod("pkg", pkg=True), mod("backends", 1, pkg=True, ops=[frm("", "sql", lvl=1)]), mod("sql", 2, ops=flat(cls("Sql"))),
+                   mod("util", 1, ops=flat(fn("helper"))),
+                   mod("api", 1, ops=[frm("pkg", "backends"), frm("pkg", "util")], all=["backends", "util"]),
+                   mod("public", 1, pkg=True, ops=[frm("pkg", "backends", "engines"), frm("pkg", "util", "tools")], all=["engines", "tools"]),
+                   mod("use", 1, ops=flat(frm("pkg.backends.sql", "Sql"), cls("T", "Sql")))], "T3", idiom="package-reexported-by-plain-module")
     # the imported name is an ALIAS of a member of a class (run = K.run, Inner = K.In): the member stays in its class
     yield project([mod("pk", pkg=True, ops=[frm("impl", "run", lvl=1), frm("impl", "Inner", lvl=1)], all=["run", "Inner"]),
                    mod("impl", 1, ops=flat(cls("K", body=flat(fn("run"), cls("In"))), alias("run", "K.run"), alias("Inner", "K.In"))),
